@@ -227,4 +227,17 @@ META = {
         "level_note": "trusted: fresh-context oracle; JSON-serialisable option values only; 5-plugin graph with shared option and child plugin",
         "technique": "history-based runtime monitoring: long-lived contexts vs fresh-context reference after every step of random operation histories; cross-process key determinism probe",
     },
+    "C14": {
+        "level_text": (
+            "Random superruns (1..4 subruns, each with its own random legal chunk layout incl. zero-duration "
+            "chunks and adjacent subruns) are requested through the real Context with the first superrun-capable "
+            "plugin at depth 1..3, targets at or above it, write_superruns on/off, three rechunk targets and "
+            "both processors; the rows are compared with the concatenation of the subruns' own results (row "
+            "values carry the run id), every yielded and every stored-and-re-read chunk is checked for correct "
+            "per-row attribution, spans inside the true run extent and spans tiling each subrun exactly once, "
+            "and a redefined superrun must not see previously stored data."
+        ),
+        "level_note": "trusted: per-row run ids in the values; feature tags in violation signatures for mechanism-keyed known findings",
+        "technique": "differential runtime oracle (superrun vs ordered subrun concatenation) + per-chunk bookkeeping monitor on yielded and stored chunks",
+    },
 }
